@@ -1370,6 +1370,18 @@ def c15_do(op):
         d0.config_tracts(_C15_CFG[0])
         d0.tracts.config_tracts(_C15_CFG[0])
         pytrs.TractList(d0.tracts).parse_tracts(config=_C15_CFG[0], clean_qq=False)
+    elif name == "bad_config":
+        # the same ill-formed config text every time (an unknown setting after two valid ones), through the entry points
+        # that compile config text; each must reject it - the exception of the last one is what the event records
+        for make in (lambda: pytrs.Config("s,e,no_such_setting"),
+                     lambda: pytrs.Tract("NE/4", "154n97w14", config="s,e,no_such_setting"),
+                     lambda: pytrs.PLSSDesc("T154-R97 Sec 14: NE/4", config="s,e,no_such_setting")):
+            try:
+                make()
+            except ValueError:
+                continue
+            raise AssertionError("an unknown setting name was accepted")
+        pytrs.PLSSDesc("T154-R97 Sec 14: NE/4", config="s,e,no_such_setting")
     elif name == "dry_run":
         # previews: parse(commit=False) under other settings on the tract the caller keeps (created now if there is none)
         # and on the tracts of the kept description
@@ -1403,6 +1415,8 @@ def c15(case):
                 ev["exc"] = type(e).__name__
                 ev["exc_msg"] = str(e)[:200]
                 events.append(ev)
+                if op["name"] == "bad_config" and isinstance(e, ValueError):
+                    continue            # (the expected rejection: the history goes on)
                 break
             events.append(ev)
     finally:
